@@ -11,9 +11,11 @@ import (
 	"bytes"
 	"context"
 	"crypto/x509"
+	"encoding/asn1"
 	"encoding/json"
 	"errors"
 	"fmt"
+	"math/big"
 	"sort"
 	"strings"
 	"time"
@@ -44,6 +46,7 @@ type script struct {
 	genKeyID      string
 	chain         string // "", other, empty, invalid-der, leaf-only-of-other, reversed
 	corruptRaw    bool
+	rawSig        func(honest []byte) []byte // non-nil: what is answered instead of the honest raw signature
 	annotations   map[string]string
 	caps          []pf.Capability // non-nil: what the metadata declares instead of the generator capability
 	failAt        string          // command that answers with an error instead of a reply
@@ -84,6 +87,9 @@ func (p *script) GenerateSignature(ctx context.Context, req *pf.GenerateSignatur
 	if p.corruptRaw {
 		sig = append([]byte(nil), sig...)
 		sig[len(sig)/2] ^= 0x40
+	}
+	if p.rawSig != nil {
+		sig = p.rawSig(sig)
 	}
 	var chain [][]byte
 	switch p.chain {
@@ -270,6 +276,13 @@ func main() {
 		{"payload-followed-by-bytes", "envelope", func(s *script) {
 			s.mutate = func(b []byte) []byte { return append(append([]byte{}, b...), []byte(" trailing-bytes")...) }
 		}, true},
+		// the requested document BEHIND something: a byte order mark, a comment (no JSON reader of a verifier skips either)
+		{"payload-behind-a-byte-order-mark", "envelope", func(s *script) {
+			s.mutate = func(b []byte) []byte { return append([]byte("\xef\xbb\xbf"), b...) }
+		}, true},
+		{"payload-behind-a-comment", "envelope", func(s *script) {
+			s.mutate = func(b []byte) []byte { return append([]byte("/* signed by plugin */"), b...) }
+		}, true},
 		// near misses of the Notary payload type: a verifier compares the type exactly, so each of these is another type
 		{"payload-type-with-parameter", "envelope", func(s *script) { s.cty = lib.PayloadType + "; charset=utf-8" }, true},
 		{"payload-type-with-version-parameter", "envelope", func(s *script) { s.cty = lib.PayloadType + ";version=2" }, true},
@@ -291,6 +304,29 @@ func main() {
 		{"chain-invalid-der", "raw", func(s *script) { s.chain = "invalid-der" }, true},
 		{"chain-reversed", "raw", func(s *script) { s.chain = "reversed" }, true},
 		{"corrupt-raw-signature", "raw", func(s *script) { s.corruptRaw = true }, true},
+		// answers in the ASN.1 form key-management services speak: SEQUENCE { INTEGER r, INTEGER s } with an integer far
+		// too large for any key, with a zero and with a negative one; and the honest r||s with one byte too many / too few
+		{"raw-signature-der-with-oversized-integer", "raw", func(s *script) {
+			s.rawSig = func([]byte) []byte {
+				b, _ := asn1.Marshal(struct{ R, S *big.Int }{new(big.Int).Lsh(big.NewInt(0x5a), 8*150), big.NewInt(1)})
+				return b
+			}
+		}, true},
+		{"raw-signature-der-with-oversized-second-integer", "raw", func(s *script) {
+			s.rawSig = func([]byte) []byte {
+				b, _ := asn1.Marshal(struct{ R, S *big.Int }{big.NewInt(1), new(big.Int).Lsh(big.NewInt(0x5a), 8*70)})
+				return b
+			}
+		}, true},
+		{"raw-signature-der-with-zero-and-negative-integer", "raw", func(s *script) {
+			s.rawSig = func([]byte) []byte {
+				b, _ := asn1.Marshal(struct{ R, S *big.Int }{big.NewInt(0), big.NewInt(-7)})
+				return b
+			}
+		}, true},
+		{"raw-signature-one-byte-longer", "raw", func(s *script) { s.rawSig = func(h []byte) []byte { return append(append([]byte{}, h...), 0) } }, true},
+		{"raw-signature-one-byte-shorter", "raw", func(s *script) { s.rawSig = func(h []byte) []byte { return h[:len(h)-1] } }, true},
+		{"raw-signature-empty", "raw", func(s *script) { s.rawSig = func([]byte) []byte { return []byte{} } }, true},
 		// a plugin that does not (or no longer) declare a signing capability, or whose command fails: nothing may be returned
 		{"metadata-verifier-capabilities-only", "raw", func(s *script) {
 			s.caps = []pf.Capability{pf.CapabilityTrustedIdentityVerifier, pf.CapabilityRevocationCheckVerifier}
@@ -396,7 +432,7 @@ func main() {
 		if len(c.devs) > 0 && ci%2 == 1 {
 			honest := *sc
 			honest.mutate, honest.cty, honest.echoFmt, honest.realFmt, honest.corrupt, honest.caps, honest.failAt = nil, "", "", "", false, nil, ""
-			honest.describeKeyID, honest.describeSpec, honest.genKeyID, honest.chain, honest.corruptRaw = "", "", "", "", false
+			honest.describeKeyID, honest.describeSpec, honest.genKeyID, honest.chain, honest.corruptRaw, honest.rawSig = "", "", "", "", false, nil
 			deviating := *sc
 			*sc = honest
 			if _, _, err := ps.Sign(context.Background(), desc, notation.SignerSignOptions{SignatureMediaType: c.format}); err != nil {
